@@ -1,8 +1,12 @@
-(* The sequential SessionCache model refines the abstract log specification for every
-   history with a monotone clock whose stored IDs are pairwise distinct.
-   Part 1: the circular list + dict represent a window (queue) of live entries.
+(* The sequential SessionCache model (repaired code: entriesSlot/_drop) refines the abstract
+   log specification for EVERY history with a monotone clock, repeated IDs included.
+   Part 1: circular list + dict + slot map represent a window (queue) of slots; the dict holds,
+           for every ID in the window, the session of its NEWEST slot; older slots of the same
+           ID are stale and are skipped when recycled.
    Part 2: the window is the newest part of the specification's log.
-   Part 3: induction over histories. *)
+   Part 3: induction over histories.
+   (Before the fix "SessionCache must not drop a live entry when a session ID is stored twice"
+   this was provable only for pairwise distinct stored IDs; see Proofs/C18_CacheWit.v.) *)
 From Coq Require Import ZArith List Bool Lia.
 From TV Require Import Base.Prelude Base.C18_Lib Model.C18_Cache Spec.C18_CacheSpec.
 Import ListNotations.
@@ -13,55 +17,65 @@ Definition wid (e : went) : Z := fst (fst e).
 Definition wsess (e : went) : Z := snd (fst e).
 Definition wts (e : went) : Z := snd e.
 
-Fixpoint wlookup (id : Z) (w : list went) : option Z :=
+(* session / position of the LAST (newest) slot of id in the window *)
+Fixpoint wlast (id : Z) (w : list went) : option Z :=
   match w with
   | [] => None
-  | e :: w' => if id =? wid e then Some (wsess e) else wlookup id w'
+  | e :: w' => match wlast id w' with
+               | Some s => Some s
+               | None => if id =? wid e then Some (wsess e) else None
+               end
   end.
 
-Lemma wlookup_none id w : wlookup id w = None <-> ~ In id (map wid w).
+Fixpoint wlast_pos (id : Z) (w : list went) : option nat :=
+  match w with
+  | [] => None
+  | e :: w' => match wlast_pos id w' with
+               | Some j => Some (S j)
+               | None => if id =? wid e then Some O else None
+               end
+  end.
+
+Lemma wlast_app id w e : wlast id (w ++ [e]) = if id =? wid e then Some (wsess e) else wlast id w.
 Proof.
-  induction w as [|e w IH]; cbn [wlookup map In]; [tauto|].
-  destruct (id =? wid e) eqn:E.
-  - apply Z.eqb_eq in E. split; [discriminate|]. intros H. exfalso. apply H. left. congruence.
-  - apply Z.eqb_neq in E. rewrite IH. split; [intros H [H1|H1]; [congruence|tauto]|tauto].
+  induction w as [|x w IH]; cbn [app wlast].
+  - destruct (id =? wid e); reflexivity.
+  - rewrite IH. destruct (id =? wid e); reflexivity.
 Qed.
 
-Lemma wlookup_some id w s : wlookup id w = Some s -> exists ts, In (id, s, ts) w.
+Lemma wlast_pos_app id w e :
+  wlast_pos id (w ++ [e]) = if id =? wid e then Some (length w) else wlast_pos id w.
 Proof.
-  induction w as [|e w IH]; cbn [wlookup]; [discriminate|].
-  destruct (id =? wid e) eqn:E.
-  - apply Z.eqb_eq in E. intros H. inversion H; subst. exists (wts e). left.
-    destruct e as [[a b] c]. reflexivity.
-  - intros H. destruct (IH H) as [ts Hin]. exists ts. right. exact Hin.
+  induction w as [|x w IH]; cbn [app wlast_pos length].
+  - destruct (id =? wid e); reflexivity.
+  - rewrite IH. destruct (id =? wid e); reflexivity.
 Qed.
 
-Lemma wlookup_in id s ts w : NoDup (map wid w) -> In (id, s, ts) w -> wlookup id w = Some s.
+Lemma wlast_pos_lt id w j : wlast_pos id w = Some j -> (j < length w)%nat.
 Proof.
-  induction w as [|e w IH]; cbn [map wlookup In]; intros Hn Hin; [destruct Hin|].
-  inversion Hn as [|x l Hx Hn']; subst.
-  destruct Hin as [->|Hin].
-  - cbn [wid fst]. rewrite Z.eqb_refl. reflexivity.
-  - destruct (id =? wid e) eqn:E.
-    + apply Z.eqb_eq in E. exfalso. apply Hx. rewrite <- E.
-      change id with (wid (id, s, ts)). apply in_map. exact Hin.
-    + apply IH; assumption.
+  revert j. induction w as [|x w IH]; cbn [wlast_pos length]; intros j; [discriminate|].
+  destruct (wlast_pos id w) as [k|].
+  - intros H. inversion H; subst. specialize (IH k eq_refl). lia.
+  - destruct (id =? wid x); intros H; inversion H; subst. lia.
 Qed.
 
-Lemma wlookup_app id w e :
-  wlookup id (w ++ [e]) = match wlookup id w with Some v => Some v | None => if id =? wid e then Some (wsess e) else None end.
+Lemma wlast_pos_some id w : (exists j, wlast_pos id w = Some j) <-> (exists s, wlast id w = Some s).
 Proof.
-  induction w as [|x w IH]; cbn [app wlookup]; [reflexivity|].
-  destruct (id =? wid x); [reflexivity|exact IH].
+  induction w as [|x w IH]; cbn [wlast wlast_pos].
+  - split; intros [? H]; discriminate.
+  - destruct (wlast_pos id w) as [k|]; destruct (wlast id w) as [s|].
+    + split; eauto.
+    + exfalso. destruct (proj1 IH (ex_intro _ k eq_refl)) as [? H]. discriminate.
+    + exfalso. destruct (proj2 IH (ex_intro _ s eq_refl)) as [? H]. discriminate.
+    + destruct (id =? wid x); split; intros [? H]; try discriminate; eauto.
 Qed.
 
-Lemma NoDup_app_one {A} (l : list A) x : NoDup l -> ~ In x l -> NoDup (l ++ [x]).
+Lemma wlast_in id w s : wlast id w = Some s -> In id (map wid w).
 Proof.
-  induction l as [|a l IH]; cbn [app]; intros Hn Hx.
-  - constructor; [intros []|constructor].
-  - inversion Hn as [|y l' Hy Hn']; subst. constructor.
-    + rewrite in_app_iff. cbn [In]. intros [H|[H|[]]]; [tauto|]. subst. apply Hx. left. reflexivity.
-    + apply IH; [assumption|]. intro. apply Hx. right. assumption.
+  revert s. induction w as [|x w IH]; intros s; cbn [wlast map In]; [discriminate|].
+  destruct (wlast id w) as [s'|].
+  - intros _. right. apply (IH s'). reflexivity.
+  - destruct (id =? wid x) eqn:E; [|discriminate]. apply Z.eqb_eq in E. intros _. left. congruence.
 Qed.
 
 Lemma NoDup_app_l {A} (a b : list A) : NoDup (a ++ b) -> NoDup a.
@@ -112,45 +126,84 @@ Proof. unfold zlen. cbn [length]. lia. Qed.
 Lemma zlen_nonneg {A} (l : list A) : 0 <= zlen l.
 Proof. unfold zlen. lia. Qed.
 
-(* ---- the window represented by list + dict ------------------------------------ *)
-(* l: entriesList, i: index of the oldest live slot, w: live entries oldest first, d: entriesDict *)
-Record WinS (l : list (option (Z * Z))) (i : Z) (w : list went) (d : dict) : Prop := {
+(* ---- the window represented by list + dict + slot map ---------------------------- *)
+(* l: entriesList, i: index of the oldest live slot, w: slots oldest first,
+   d: entriesDict, sl: entriesSlot *)
+Record WinS (l : list (option (Z * Z))) (i : Z) (w : list went) (d sl : dict) : Prop := {
   ws_slots : forall j e, nth_error w j = Some e ->
              nth_error l (Z.to_nat ((i + Z.of_nat j) mod zlen l)) = Some (Some (wid e, wts e));
-  ws_nodup : NoDup (map wid w);
   ws_keys : NoDup (dict_keys d);
-  ws_dict : forall id, dict_get id d = wlookup id w }.
+  ws_dict : forall id, dict_get id d = wlast id w;
+  ws_slot : forall id, dict_get id sl =
+                       option_map (fun j => (i + Z.of_nat j) mod zlen l) (wlast_pos id w) }.
 
-(* dropping the oldest entry: what both _purge and the eviction in __setitem__ do *)
-Lemma win_drop_head l i e w d : 1 <= zlen l ->
-  WinS l i (e :: w) d -> WinS l ((i + 1) mod zlen l) w (dict_remove (wid e) d).
+Lemma win_head_slot l i e w d sl : 1 <= zlen l -> 0 <= i < zlen l ->
+  WinS l i (e :: w) d sl -> py_index l i = Ok (Some (wid e, wts e)).
 Proof.
-  intros Hn [Hs Hnd Hk Hd]. constructor.
-  - intros j e' Hj. rewrite slot_succ by exact Hn.
-    specialize (Hs (S j) e' Hj). rewrite Nat2Z.inj_succ in Hs. unfold Z.succ in Hs. exact Hs.
-  - cbn [map] in Hnd. inversion Hnd. assumption.
-  - apply dict_keys_remove_nodup. exact Hk.
-  - intros id. rewrite dict_get_remove, Hd. cbn [wlookup].
-    destruct (id =? wid e) eqn:E; [|reflexivity].
-    apply Z.eqb_eq in E. subst id. symmetry. apply wlookup_none.
-    cbn [map] in Hnd. inversion Hnd. assumption.
+  intros Hn Hi [Hs _ _ _]. apply py_index_nth; [exact Hi|].
+  specialize (Hs O e eq_refl). cbn [Z.of_nat] in Hs. rewrite Z.add_0_r, Z.mod_small in Hs by lia. exact Hs.
 Qed.
 
-Lemma win_head_slot l i e w d : 1 <= zlen l -> 0 <= i < zlen l ->
-  WinS l i (e :: w) d -> py_index l i = Ok (Some (wid e, wts e)) /\ dict_mem (wid e) d = true.
+(* _drop on the oldest slot: removes the entry iff this slot is the newest one of its ID *)
+Lemma win_drop_head l i e w d sl : 1 <= zlen l -> 0 <= i < zlen l -> zlen (e :: w) <= zlen l ->
+  WinS l i (e :: w) d sl ->
+  exists d' sl', drop l d sl i = (d', sl', None) /\ WinS l ((i + 1) mod zlen l) w d' sl'.
 Proof.
-  intros Hn Hi [Hs Hnd Hk Hd]. split.
-  - apply py_index_nth; [exact Hi|].
-    specialize (Hs O e eq_refl). cbn [Z.of_nat] in Hs. rewrite Z.add_0_r, Z.mod_small in Hs by lia. exact Hs.
-  - unfold dict_mem. rewrite Hd. cbn [wlookup]. rewrite Z.eqb_refl. reflexivity.
+  intros Hn Hi Hlen Hw. pose proof (win_head_slot l i e w d sl Hn Hi Hw) as Hidx.
+  destruct Hw as [Hs Hk Hd Hsl]. rewrite zlen_cons in Hlen. pose proof (zlen_nonneg w) as Hw0.
+  unfold drop. rewrite Hidx.
+  assert (forall j e', nth_error w j = Some e' ->
+            nth_error l (Z.to_nat (((i + 1) mod zlen l + Z.of_nat j) mod zlen l)) = Some (Some (wid e', wts e'))) as Hs'.
+  { intros j e' Hj. rewrite slot_succ by exact Hn.
+    specialize (Hs (S j) e' Hj). rewrite Nat2Z.inj_succ in Hs. unfold Z.succ in Hs. exact Hs. }
+  rewrite (Hsl (wid e)). cbn [wlast_pos]. rewrite Z.eqb_refl.
+  destruct (wlast_pos (wid e) w) as [j|] eqn:Hp; cbn [option_map].
+  - (* stale: a newer slot of the same ID exists *)
+    pose proof (wlast_pos_lt _ _ _ Hp) as Hj. unfold zlen in Hlen, Hw0.
+    assert ((i + Z.of_nat (S j)) mod zlen l <> i) as Hne.
+    { rewrite <- (Z.mod_small i (zlen l)) at 2 by lia. replace i with (i + 0) at 2 by lia.
+      apply slot_distinct; unfold zlen in *; lia. }
+    apply Z.eqb_neq in Hne. rewrite Hne.
+    exists d, sl. split; [reflexivity|]. constructor; try assumption.
+    + intros id. rewrite Hd. cbn [wlast].
+      destruct (wlast id w) as [s|] eqn:E; [reflexivity|].
+      destruct (id =? wid e) eqn:E2; [|reflexivity]. apply Z.eqb_eq in E2. subst id.
+      destruct (proj1 (wlast_pos_some (wid e) w) (ex_intro _ j Hp)) as [s Hs2]. congruence.
+    + intros id. rewrite Hsl. cbn [wlast_pos].
+      destruct (wlast_pos id w) as [k|] eqn:E; cbn [option_map].
+      * f_equal. rewrite slot_succ by exact Hn. f_equal. lia.
+      * destruct (id =? wid e) eqn:E2; [|reflexivity]. apply Z.eqb_eq in E2. subst id. congruence.
+  - (* newest slot of its ID: the entry goes *)
+    cbn [Z.of_nat]. rewrite Z.add_0_r, Z.mod_small by lia. rewrite Z.eqb_refl.
+    assert (wlast (wid e) w = None) as Hnone.
+    { destruct (wlast (wid e) w) as [s|] eqn:E; [|reflexivity].
+      destruct (proj2 (wlast_pos_some (wid e) w) (ex_intro _ s E)) as [j Hj]. congruence. }
+    assert (dict_mem (wid e) d = true) as Hm1.
+    { unfold dict_mem. rewrite Hd. cbn [wlast]. rewrite Hnone, Z.eqb_refl. reflexivity. }
+    assert (dict_mem (wid e) sl = true) as Hm2.
+    { unfold dict_mem. rewrite Hsl. cbn [wlast_pos]. rewrite Hp, Z.eqb_refl. reflexivity. }
+    unfold dict_del. rewrite Hm1, Hm2.
+    eexists. eexists. split; [reflexivity|]. constructor.
+    + exact Hs'.
+    + apply dict_keys_remove_nodup. exact Hk.
+    + intros id. rewrite dict_get_remove, Hd. cbn [wlast].
+      destruct (id =? wid e) eqn:E.
+      * apply Z.eqb_eq in E. subst id. symmetry. exact Hnone.
+      * destruct (wlast id w); reflexivity.
+    + intros id. rewrite dict_get_remove, Hsl. cbn [wlast_pos].
+      destruct (id =? wid e) eqn:E.
+      * apply Z.eqb_eq in E. subst id. rewrite Hp. reflexivity.
+      * destruct (wlast_pos id w) as [k|]; cbn [option_map]; [|reflexivity].
+        f_equal. rewrite slot_succ by exact Hn. f_equal. lia.
 Qed.
 
-(* storing a new entry in the free slot behind the window *)
-Lemma win_push l i w d id s now : 1 <= zlen l -> 0 <= i < zlen l -> zlen w <= zlen l - 1 ->
-  ~ In id (map wid w) -> WinS l i w d ->
-  WinS (upd_nth (Z.to_nat ((i + zlen w) mod zlen l)) l (Some (id, now))) i (w ++ [(id, s, now)]) (dict_set id s d).
+(* storing a new entry in the free slot behind the window (no freshness condition any more) *)
+Lemma win_push l i w d sl id s now : 1 <= zlen l -> 0 <= i < zlen l -> zlen w <= zlen l - 1 ->
+  WinS l i w d sl ->
+  WinS (upd_nth (Z.to_nat ((i + zlen w) mod zlen l)) l (Some (id, now))) i (w ++ [(id, s, now)])
+       (dict_set id s d) (dict_set id ((i + zlen w) mod zlen l) sl).
 Proof.
-  intros Hn Hi Hlen Hnin [Hs Hnd Hk Hd]. pose proof (zlen_nonneg w) as Hw0.
+  intros Hn Hi Hlen [Hs Hk Hd Hsl]. pose proof (zlen_nonneg w) as Hw0.
   constructor.
   - intros j e Hj. rewrite zlen_upd.
     assert (j < length (w ++ [(id, s, now)]))%nat as Hjl by (apply nth_error_Some; congruence).
@@ -163,11 +216,10 @@ Proof.
       rewrite upd_nth_other; [apply Hs; exact Hj|].
       intros Heq. apply Z2Nat.inj in Heq; try (apply slot_range; exact Hn).
       revert Heq. apply slot_distinct; unfold zlen in *; lia.
-  - rewrite map_app. cbn [map wid fst]. apply NoDup_app_one; assumption.
   - apply dict_keys_set_nodup. exact Hk.
-  - intros x. rewrite dict_get_set, wlookup_app, Hd. cbn [wid wsess fst snd].
-    destruct (x =? id) eqn:E; [|destruct (wlookup x w); reflexivity].
-    apply Z.eqb_eq in E. subst x. apply wlookup_none in Hnin. rewrite Hnin. reflexivity.
+  - intros x. rewrite dict_get_set, wlast_app, Hd. cbn [wid wsess fst snd]. reflexivity.
+  - intros x. rewrite zlen_upd. rewrite dict_get_set, wlast_pos_app, Hsl. cbn [wid fst].
+    destruct (x =? id); [|reflexivity]. cbn [option_map]. reflexivity.
 Qed.
 
 (* ---- expiry --------------------------------------------------------------------- *)
@@ -208,38 +260,39 @@ Record Rep (c : cache) (w : list went) : Prop := {
   rep_first : 0 <= c_first c < zlen (c_list c);
   rep_len : zlen w <= zlen (c_list c) - 1;
   rep_last : c_last c = (c_first c + zlen w) mod zlen (c_list c);
-  rep_win : WinS (c_list c) (c_first c) w (c_dict c) }.
+  rep_win : WinS (c_list c) (c_first c) w (c_dict c) (c_slot c) }.
 
 Lemma purge_loop_ok l last maxAge now : 1 <= zlen l ->
-  forall w fuel d i, (length w < fuel)%nat -> 0 <= i < zlen l -> zlen w <= zlen l - 1 ->
-  last = (i + zlen w) mod zlen l -> WinS l i w d ->
-  exists d' i', purge_loop fuel l last maxAge now d i = (d', Ok i') /\
+  forall w fuel d sl i, (length w < fuel)%nat -> 0 <= i < zlen l -> zlen w <= zlen l - 1 ->
+  last = (i + zlen w) mod zlen l -> WinS l i w d sl ->
+  exists d' sl' i', purge_loop fuel l last maxAge now d sl i = (d', sl', Ok i') /\
     0 <= i' < zlen l /\ last = (i' + zlen (drop_expired maxAge now w)) mod zlen l /\
-    WinS l i' (drop_expired maxAge now w) d'.
+    WinS l i' (drop_expired maxAge now w) d' sl'.
 Proof.
-  intros Hn. induction w as [|e w IH]; intros fuel d i Hf Hi Hlen Hlast Hw;
+  intros Hn. induction w as [|e w IH]; intros fuel d sl i Hf Hi Hlen Hlast Hw;
     (destruct fuel as [|fuel]; [cbn [length] in Hf; lia|]); cbn [purge_loop].
   - change (zlen (@nil went)) with 0 in Hlast. rewrite Z.add_0_r, Z.mod_small in Hlast by lia.
-    subst last. rewrite Z.eqb_refl. exists d, i. cbn [drop_expired].
+    subst last. rewrite Z.eqb_refl. exists d, sl, i. cbn [drop_expired].
     change (zlen (@nil went)) with 0. rewrite Z.add_0_r, Z.mod_small by lia. auto.
-  - rewrite zlen_cons in Hlast, Hlen. pose proof (zlen_nonneg w) as Hw0.
+  - pose proof Hlen as Hlen2. rewrite zlen_cons in Hlast, Hlen. pose proof (zlen_nonneg w) as Hw0.
     assert (i <> last) as Hne.
     { subst last. rewrite <- (Z.mod_small i (zlen l)) at 1 by lia.
       replace i with (i + 0) at 1 by lia. apply slot_distinct; lia. }
     apply Z.eqb_neq in Hne. rewrite Hne.
-    destruct (win_head_slot l i e w d Hn Hi Hw) as [Hidx Hmem]. rewrite Hidx.
+    rewrite (win_head_slot l i e w d sl Hn Hi Hw).
     fold (expired maxAge now e). cbn [drop_expired].
     destruct (expired maxAge now e) eqn:Ex.
-    + unfold dict_del. rewrite Hmem. rewrite py_mod_ok by exact Hn.
+    + destruct (win_drop_head l i e w d sl Hn Hi ltac:(lia) Hw) as [d1 [sl1 [Ed Hw1]]].
+      rewrite Ed. rewrite py_mod_ok by exact Hn.
       cbn [length] in Hf.
-      destruct (IH fuel (dict_remove (wid e) d) ((i + 1) mod zlen l)) as [d' [i' [E [Hi' [Hl' Hw']]]]].
+      destruct (IH fuel d1 sl1 ((i + 1) mod zlen l)) as [d' [sl' [i' [E [Hi' [Hl' Hw']]]]]].
       * lia.
       * apply slot_range. exact Hn.
       * lia.
       * rewrite slot_succ by exact Hn. subst last. f_equal. lia.
-      * apply win_drop_head; assumption.
-      * exists d', i'. auto.
-    + exists d, i. rewrite zlen_cons. auto.
+      * exact Hw1.
+      * exists d', sl', i'. auto.
+    + exists d, sl, i. rewrite zlen_cons. auto.
 Qed.
 
 Lemma purge_ok c w now : Rep c w ->
@@ -247,17 +300,18 @@ Lemma purge_ok c w now : Rep c w ->
              c_list c' = c_list c /\ c_maxAge c' = c_maxAge c.
 Proof.
   intros [Hn Hf Hlen Hlast Hw]. unfold purge.
-  destruct (purge_loop_ok (c_list c) (c_last c) (c_maxAge c) now Hn w (S (length (c_list c))) (c_dict c) (c_first c))
-    as [d' [i' [E [Hi' [Hl' Hw']]]]]; try assumption.
+  destruct (purge_loop_ok (c_list c) (c_last c) (c_maxAge c) now Hn w (S (length (c_list c)))
+              (c_dict c) (c_slot c) (c_first c))
+    as [d' [sl' [i' [E [Hi' [Hl' Hw']]]]]]; try assumption.
   { unfold zlen in Hlen. lia. }
   rewrite E. eexists. split; [reflexivity|]. split; [|split; reflexivity].
-  constructor; cbn [c_list c_first c_last c_dict with_first with_dict]; try assumption.
+  constructor; cbn [c_list c_first c_last c_dict c_slot with_first with_dicts]; try assumption.
   pose proof (zlen_drop_le (c_maxAge c) now w). lia.
 Qed.
 
 Lemma getitem_ok c w valid id now : Rep c w ->
   exists c', getitem c valid id now =
-             (c', match wlookup id (drop_expired (c_maxAge c) now w) with
+             (c', match wlast id (drop_expired (c_maxAge c) now w) with
                   | None => OExc KeyError
                   | Some s => if valid s then ORet (Some s) else OExc KeyError
                   end) /\
@@ -265,26 +319,26 @@ Lemma getitem_ok c w valid id now : Rep c w ->
 Proof.
   intros Hr. destruct (purge_ok c w now Hr) as [c' [E [Hr' [Hl Hm]]]].
   unfold getitem. rewrite E. exists c'. split; [|auto].
-  rewrite (ws_dict _ _ _ _ (rep_win _ _ Hr')).
-  destruct (wlookup id (drop_expired (c_maxAge c) now w)) as [s|]; [|reflexivity].
+  rewrite (ws_dict _ _ _ _ _ (rep_win _ _ Hr')).
+  destruct (wlast id (drop_expired (c_maxAge c) now w)) as [s|]; [|reflexivity].
   destruct (valid s); reflexivity.
 Qed.
 
 Definition push_evict (n : Z) (w : list went) (e : went) : list went :=
   if zlen w + 1 <? n then w ++ [e] else tl (w ++ [e]).
 
-Lemma setitem_ok c w id s now : Rep c w -> ~ In id (map wid w) ->
+Lemma setitem_ok c w id s now : Rep c w ->
   exists c', setitem c id s now = (c', ORet None) /\
              Rep c' (push_evict (zlen (c_list c)) w (id, s, now)) /\
              zlen (c_list c') = zlen (c_list c) /\ c_maxAge c' = c_maxAge c.
 Proof.
-  intros [Hn Hf Hlen Hlast Hw] Hnin. pose proof (zlen_nonneg w) as Hw0.
+  intros [Hn Hf Hlen Hlast Hw]. pose proof (zlen_nonneg w) as Hw0.
   set (n := zlen (c_list c)) in *.
   assert (0 <= c_last c < n) as Hl by (rewrite Hlast; apply slot_range; exact Hn).
-  pose proof (win_push (c_list c) (c_first c) w (c_dict c) id s now Hn Hf Hlen Hnin Hw) as P.
+  pose proof (win_push (c_list c) (c_first c) w (c_dict c) (c_slot c) id s now Hn Hf Hlen Hw) as P.
   fold n in P. rewrite <- Hlast in P.
   unfold setitem. rewrite py_setitem_ok by exact Hl.
-  cbn [c_list c_first c_last c_dict c_maxAge with_first with_dict with_list with_last].
+  cbn [c_list c_first c_last c_dict c_slot c_maxAge with_first with_dicts with_list with_last].
   rewrite zlen_upd. fold n. rewrite py_mod_ok by exact Hn.
   assert ((c_last c + 1) mod n = (c_first c + (zlen w + 1)) mod n) as Hl1.
   { rewrite Hlast. rewrite Zplus_mod_idemp_l. f_equal. lia. }
@@ -295,11 +349,11 @@ Proof.
     { rewrite Hl1. rewrite mod_wrap by lia. destruct (c_first c + (zlen w + 1) <? n) eqn:E; lia. }
     apply Z.eqb_neq in Hne. rewrite Hne.
     eexists. split; [reflexivity|]. split; [|split; [cbn [c_list]; apply zlen_upd|reflexivity]].
-    constructor; cbn [c_list c_first c_last c_dict with_first with_dict with_list with_last];
+    constructor; cbn [c_list c_first c_last c_dict c_slot with_first with_dicts with_list with_last];
       rewrite ?zlen_upd; fold n; try assumption.
     + rewrite zlen_app. change (zlen [(id, s, now)]) with 1. lia.
     + rewrite zlen_app. change (zlen [(id, s, now)]) with 1. exact Hl1.
-  - (* full: the oldest entry is evicted *)
+  - (* full: the oldest slot is recycled *)
     assert (zlen w + 1 = n) as Hk by lia.
     assert ((c_last c + 1) mod n = c_first c) as Heq.
     { rewrite Hl1, Hk. rewrite mod_wrap by lia. destruct (c_first c + n <? n) eqn:E; lia. }
@@ -308,20 +362,20 @@ Proof.
     { destruct w; discriminate. }
     assert (zlen (e0 :: w0) = n) as Hlen0.
     { rewrite <- Ew, zlen_app. change (zlen [(id, s, now)]) with 1. exact Hk. }
-    rewrite zlen_cons in Hlen0.
     set (l2 := upd_nth (Z.to_nat (c_last c)) (c_list c) (Some (id, now))) in *.
     assert (zlen l2 = n) as Hn2 by (unfold l2; apply zlen_upd).
-    destruct (win_head_slot l2 (c_first c) e0 w0 _ ltac:(lia) ltac:(lia) P) as [Hidx Hmem].
-    rewrite Hidx. unfold dict_del. rewrite Hmem. rewrite ?Hn2. rewrite py_mod_ok by exact Hn.
+    destruct (win_drop_head l2 (c_first c) e0 w0 _ _ ltac:(lia) ltac:(lia) ltac:(lia) P) as [d4 [sl4 [Ed Hw4]]].
+    rewrite Ed. rewrite ?Hn2. rewrite py_mod_ok by exact Hn.
     eexists. split; [reflexivity|]. split; [|split; [cbn [c_list]; exact Hn2|reflexivity]].
     match goal with |- context [tl ?x] => assert (x = e0 :: w0) as Ew' by exact Ew; rewrite Ew' end. cbn [tl].
-    constructor; cbn [c_list c_first c_last c_dict with_first with_dict with_list with_last];
+    rewrite zlen_cons in Hlen0.
+    constructor; cbn [c_list c_first c_last c_dict c_slot with_first with_dicts with_list with_last];
       rewrite ?Hn2; try assumption.
     + apply slot_range. exact Hn.
     + lia.
     + rewrite slot_succ by exact Hn. replace (zlen w0 + 1) with n by lia.
       rewrite mod_wrap by lia. destruct (c_first c + n <? n) eqn:E; lia.
-    + rewrite <- Hn2. apply win_drop_head; [lia|exact P].
+    + rewrite <- Hn2. exact Hw4.
 Qed.
 
 Lemma init_rep n maxAge : 1 <= n -> Rep (init n maxAge) [] /\ zlen (c_list (init n maxAge)) = n.
@@ -329,12 +383,12 @@ Proof.
   intros Hn. assert (zlen (c_list (init n maxAge)) = n) as Hl.
   { cbn [init c_list]. unfold zlen. rewrite repeat_length. lia. }
   split; [|exact Hl].
-  constructor; rewrite ?Hl; cbn [init c_first c_last c_dict]; change (zlen (@nil went)) with 0; try lia.
+  constructor; rewrite ?Hl; cbn [init c_first c_last c_dict c_slot]; change (zlen (@nil went)) with 0; try lia.
   - rewrite Z.add_0_r. rewrite Z.mod_small by lia. reflexivity.
   - constructor.
     + intros j e Hj. destruct j; discriminate.
     + constructor.
-    + constructor.
+    + intros id. reflexivity.
     + intros id. reflexivity.
 Qed.
 
@@ -376,7 +430,6 @@ Proof.
 Qed.
 
 Record Rel (n maxAge : Z) (w old : list went) (t : Z) : Prop := {
-  rel_nodup : NoDup (map wid (rev w ++ old));
   rel_asc : asc w;
   rel_le : forall e, In e w -> wts e <= t;
   rel_old : forall k e, nth_error old k = Some e -> zlen w + Z.of_nat k < n - 1 -> t - wts e > maxAge }.
@@ -388,8 +441,7 @@ Proof. rewrite app_assoc, <- rev_app_distr, take_drop. reflexivity. Qed.
 Lemma rel_purge n maxAge w old t now : Rel n maxAge w old t -> t <= now ->
   Rel n maxAge (drop_expired maxAge now w) (rev (take_expired maxAge now w) ++ old) now.
 Proof.
-  intros [Hnd Ha Hle Hold] Ht. constructor.
-  - rewrite log_split. exact Hnd.
+  intros [Ha Hle Hold] Ht. constructor.
   - apply asc_drop. exact Ha.
   - intros e Hin. assert (In e w) as Hw by (rewrite <- (take_drop maxAge now w); apply in_or_app; right; exact Hin).
     specialize (Hle e Hw). lia.
@@ -403,19 +455,15 @@ Proof.
       unfold zlen in *. lia.
 Qed.
 
-Lemma rel_put n maxAge w old t now id s : Rel n maxAge w old t -> t <= now ->
-  ~ In id (map wid (rev w ++ old)) -> zlen w <= n - 1 ->
+Lemma rel_put n maxAge w old t now id s : Rel n maxAge w old t -> t <= now -> zlen w <= n - 1 ->
   exists old', Rel n maxAge (push_evict n w (id, s, now)) old' now /\
                rev (push_evict n w (id, s, now)) ++ old' = (id, s, now) :: (rev w ++ old).
 Proof.
-  intros [Hnd Ha Hle Hold] Ht Hnin Hlen.
-  assert (NoDup (map wid ((id, s, now) :: rev w ++ old))) as Hnd'.
-  { cbn [map wid fst]. constructor; assumption. }
+  intros [Ha Hle Hold] Ht Hlen.
   assert (asc (w ++ [(id, s, now)])) as Ha'.
   { apply asc_app_one; [exact Ha|]. intros x Hx. cbn [wts snd]. specialize (Hle x Hx). lia. }
   unfold push_evict. destruct (zlen w + 1 <? n) eqn:E.
   - exists old. split; [|rewrite rev_app_distr; reflexivity]. constructor.
-    + rewrite rev_app_distr. exact Hnd'.
     + exact Ha'.
     + intros e Hin. apply in_app_or in Hin. destruct Hin as [Hin|[<-|[]]]; [specialize (Hle e Hin); lia|cbn [wts snd]; lia].
     + intros k e Hk Hcap. rewrite zlen_app in Hcap. change (zlen [(id, s, now)]) with 1 in Hcap.
@@ -426,7 +474,6 @@ Proof.
       change (rev w0 ++ [e0]) with (rev (e0 :: w0)). rewrite <- Ew, rev_app_distr. reflexivity. }
     match goal with |- context [tl ?x] => assert (x = e0 :: w0) as Ew' by exact Ew; rewrite Ew' end.
     exists (e0 :: old). cbn [tl]. split; [|exact Hlog]. constructor.
-    + rewrite Hlog. exact Hnd'.
     + destruct Ha' as [_ H2]. exact H2.
     + intros e Hin. assert (In e (w ++ [(id, s, now)])) as Hin' by (rewrite Ew; right; exact Hin).
       apply in_app_or in Hin'. destruct Hin' as [Hin'|[<-|[]]]; [specialize (Hle e Hin'); lia|cbn [wts snd]; lia].
@@ -436,13 +483,6 @@ Proof.
 Qed.
 
 (* ---- find_newest ------------------------------------------------------------------ *)
-Lemma find_newest_none id log k0 : find_newest id log k0 = None -> ~ In id (map wid log).
-Proof.
-  revert k0. induction log as [|[[a b] c] log IH]; intros k0; cbn [find_newest map In wid fst]; [tauto|].
-  destruct (id =? a) eqn:E; [discriminate|]. apply Z.eqb_neq in E.
-  intros H [H1|H1]; [congruence|exact (IH _ H H1)].
-Qed.
-
 Lemma find_newest_some id log k0 k s ts : find_newest id log k0 = Some (k, s, ts) ->
   exists j, k = k0 + Z.of_nat j /\ nth_error log j = Some (id, s, ts).
 Proof.
@@ -452,17 +492,31 @@ Proof.
   - intros H. destruct (IH _ H) as [j [Hk Hj]]. exists (S j). split; [lia|exact Hj].
 Qed.
 
-Lemma find_newest_at id log : NoDup (map wid log) ->
-  forall j k0 s ts, nth_error log j = Some (id, s, ts) -> find_newest id log k0 = Some (k0 + Z.of_nat j, s, ts).
+Lemma find_newest_app id a b k0 :
+  find_newest id (a ++ b) k0 =
+  match find_newest id a k0 with Some r => Some r | None => find_newest id b (k0 + zlen a) end.
 Proof.
-  induction log as [|[[a b] c] log IH]; intros Hnd j k0 s ts Hj; [destruct j; discriminate|].
-  cbn [map wid fst] in Hnd. inversion Hnd as [|x l Hx Hnd']; subst.
-  destruct j as [|j]; cbn [nth_error find_newest] in *.
-  - inversion Hj; subst. rewrite Z.eqb_refl. f_equal. f_equal. f_equal. cbn. lia.
-  - destruct (id =? a) eqn:E.
-    + apply Z.eqb_eq in E. subst a. exfalso. apply Hx.
-      change id with (wid (id, s, ts)). apply in_map. eapply nth_error_In. exact Hj.
-    + rewrite (IH Hnd' j (k0 + 1) s ts Hj). f_equal. f_equal. f_equal. lia.
+  revert k0. induction a as [|[[x y] z] a IH]; intros k0; cbn [app find_newest].
+  - change (zlen (@nil (Z * Z * Z))) with 0. rewrite Z.add_0_r. reflexivity.
+  - destruct (id =? x); [reflexivity|]. rewrite IH. rewrite zlen_cons.
+    destruct (find_newest id a (k0 + 1)); [reflexivity|]. f_equal. lia.
+Qed.
+
+(* the newest store of id inside the window is the window's last slot of id *)
+Lemma find_newest_rev id (w : list went) : forall k0,
+  match find_newest id (rev w) k0 with
+  | Some (k, s, ts) => wlast id w = Some s /\ In (id, s, ts) w /\ k0 <= k < k0 + zlen w
+  | None => wlast id w = None
+  end.
+Proof.
+  induction w as [|e w IH]; intros k0; [reflexivity|].
+  cbn [rev wlast]. rewrite find_newest_app. specialize (IH k0).
+  destruct (find_newest id (rev w) k0) as [[[k s] ts]|].
+  - destruct IH as [H1 [H2 H3]]. rewrite H1. rewrite zlen_cons. split; [reflexivity|]. split; [right; exact H2|lia].
+  - rewrite IH. destruct e as [[a b] c]. cbn [find_newest wid wsess fst snd].
+    destruct (id =? a) eqn:E; [|reflexivity].
+    apply Z.eqb_eq in E. subst a. split; [reflexivity|]. split; [left; reflexivity|].
+    unfold zlen. rewrite rev_length. cbn [length]. lia.
 Qed.
 
 (* the lookup answers exactly as the specification *)
@@ -470,55 +524,41 @@ Lemma spec_get_agrees n maxAge w old now inv id :
   Rel n maxAge w old now -> zlen w <= n - 1 ->
   (forall e, In e w -> expired maxAge now e = false) ->
   spec_get n maxAge (rev w ++ old) inv id now =
-  match wlookup id w with
+  match wlast id w with
   | None => OExc KeyError
   | Some s => if valid_in inv s then ORet (Some s) else OExc KeyError
   end.
 Proof.
-  intros [Hnd Ha Hle Hold] Hlen Hfresh. unfold spec_get, capacity.
-  assert (NoDup (map wid w)) as Hndw.
-  { rewrite map_app in Hnd. apply NoDup_app_l in Hnd. rewrite map_rev in Hnd.
-    apply NoDup_rev in Hnd. rewrite rev_involutive in Hnd. exact Hnd. }
-  destruct (wlookup id w) as [s|] eqn:Hl.
-  - destruct (wlookup_some _ _ _ Hl) as [ts Hin].
-    apply in_rev in Hin. apply In_nth_error in Hin. destruct Hin as [j Hj].
-    assert (j < length (rev w))%nat as Hjl.
-    { apply nth_error_Some. intros HH. pose proof (eq_trans (eq_sym HH) Hj) as X. discriminate X. }
-    rewrite (find_newest_at id (rev w ++ old) Hnd j 0 s ts) by (rewrite nth_error_app1 by exact Hjl; exact Hj).
-    assert (expired maxAge now (id, s, ts) = false) as Hx.
-    { apply Hfresh. apply in_rev. eapply nth_error_In. exact Hj. }
-    apply expired_false in Hx. cbn [wts snd] in Hx.
+  intros [Ha Hle Hold] Hlen Hfresh. unfold spec_get, capacity.
+  rewrite find_newest_app. pose proof (find_newest_rev id w 0) as Hr.
+  destruct (find_newest id (rev w) 0) as [[[k s] ts]|].
+  - destruct Hr as [H1 [H2 H3]]. rewrite H1.
+    pose proof (Hfresh _ H2) as Hx. apply expired_false in Hx. cbn [wts snd] in Hx.
     destruct (now - ts <=? maxAge) eqn:E1; [|lia].
-    rewrite rev_length in Hjl. unfold zlen in Hlen.
-    destruct (0 + Z.of_nat j <? n - 1) eqn:E2; [|lia]. cbn [andb].
+    destruct (k <? n - 1) eqn:E2; [|lia]. cbn [andb].
     destruct (valid_in inv s); reflexivity.
-  - destruct (find_newest id (rev w ++ old) 0) as [[[k s] ts]|] eqn:Hf; [|reflexivity].
+  - rewrite Hr. unfold zlen at 1. rewrite rev_length. fold (zlen w).
+    destruct (find_newest id old (0 + zlen w)) as [[[k s] ts]|] eqn:Hf; [|reflexivity].
     destruct (find_newest_some _ _ _ _ _ _ Hf) as [j [Hk Hj]].
-    destruct (Nat.ltb j (length (rev w))) eqn:E.
-    + apply Nat.ltb_lt in E. rewrite nth_error_app1 in Hj by exact E.
-      apply nth_error_In, in_rev in Hj. apply wlookup_none in Hl. exfalso. apply Hl.
-      change id with (wid (id, s, ts)). apply in_map. exact Hj.
-    + apply Nat.ltb_ge in E. rewrite nth_error_app2 in Hj by exact E. rewrite rev_length in *.
-      destruct (k <? n - 1) eqn:E2.
-      * assert (now - wts (id, s, ts) > maxAge) as Hx by (eapply Hold; [exact Hj|unfold zlen; lia]).
-        cbn [wts snd] in Hx. destruct (now - ts <=? maxAge) eqn:E1; [lia|]. reflexivity.
-      * rewrite andb_false_r. reflexivity.
+    destruct (k <? n - 1) eqn:E2.
+    + assert (now - wts (id, s, ts) > maxAge) as Hx by (eapply Hold; [exact Hj|lia]).
+      cbn [wts snd] in Hx. destruct (now - ts <=? maxAge) eqn:E1; [lia|]. reflexivity.
+    + rewrite andb_false_r. reflexivity.
 Qed.
 
 (* ======== Part 3: histories ============================================================ *)
 Lemma rep_size c w : Rep c w -> zlen (c_dict c) <= zlen w.
 Proof.
-  intros [_ _ _ _ [_ Hnd Hk Hd]]. unfold zlen.
+  intros [_ _ _ _ [_ Hk Hd _]]. unfold zlen.
   assert (length (dict_keys (c_dict c)) <= length (map wid w))%nat as H.
   { apply NoDup_incl_length; [exact Hk|]. intros k Hin.
-    destruct (dict_in_get _ _ Hin) as [v Hv]. rewrite Hd in Hv.
-    destruct (wlookup_some _ _ _ Hv) as [ts Hts]. change k with (wid (k, v, ts)). apply in_map. exact Hts. }
+    destruct (dict_in_get _ _ Hin) as [v Hv]. rewrite Hd in Hv. eapply wlast_in. exact Hv. }
   unfold dict_keys in H. rewrite !map_length in H. lia.
 Qed.
 
 Lemma rel_mono n maxAge w old t now : Rel n maxAge w old t -> t <= now -> Rel n maxAge w old now.
 Proof.
-  intros [Hnd Ha Hle Hold] Ht. constructor; try assumption.
+  intros [Ha Hle Hold] Ht. constructor; try assumption.
   - intros e Hin. specialize (Hle e Hin). lia.
   - intros k e Hk Hc. specialize (Hold k e Hk Hc). lia.
 Qed.
@@ -538,21 +578,19 @@ Proof. cbn [spec_exec]. destruct (spec_apply n maxAge st now o) as [st1 r]. refl
 
 Section Histories.
   Variables n maxAge : Z.
-  Hypothesis Hn : 1 <= n.
 
   Lemma exec_refines : forall h c w old t inv,
     Rep c w -> zlen (c_list c) = n -> c_maxAge c = maxAge -> Rel n maxAge w old t ->
-    monotone_from t h -> NoDup (put_ids h) ->
-    (forall id, In id (put_ids h) -> ~ In id (map wid (rev w ++ old))) ->
+    monotone_from t h ->
     snd (exec {| w_cache := c; w_invalid := inv |} h) =
       spec_exec n maxAge {| s_log := rev w ++ old; s_invalid := inv |} h /\
     zlen (c_dict (w_cache (fst (exec {| w_cache := c; w_invalid := inv |} h)))) <= n - 1.
   Proof.
-    induction h as [|[now o] h IH]; intros c w old t inv Hrep Hlen Hage Hrel Hmono Hnd Hdis.
+    induction h as [|[now o] h IH]; intros c w old t inv Hrep Hlen Hage Hrel Hmono.
     - cbn [exec spec_exec fst snd w_cache]. split; [reflexivity|].
       pose proof (rep_size c w Hrep). pose proof (rep_len c w Hrep). lia.
     - destruct Hmono as [Ht Hmono]. rewrite exec_cons, spec_exec_cons. cbn [fst snd].
-      destruct o as [id|id s| |s b]; cbn [apply spec_apply fst snd w_cache w_invalid s_log s_invalid put_ids] in *.
+      destruct o as [id|id s| |s b]; cbn [apply spec_apply fst snd w_cache w_invalid s_log s_invalid] in *.
       + (* Get *)
         destruct (getitem_ok c w (valid_in inv) id now Hrep) as [c' [E [Hrep' [Hl' Hm']]]].
         rewrite E. cbn [fst snd]. rewrite Hage in *.
@@ -560,26 +598,17 @@ Section Histories.
         assert (zlen (c_list c') = n) as Hlen' by (rewrite Hl'; exact Hlen).
         rewrite <- (log_split maxAge now w old).
         rewrite (spec_get_agrees n maxAge _ _ now inv id Hrel').
-        * destruct (IH c' _ _ now inv Hrep' Hlen' Hm' Hrel' Hmono Hnd) as [IH1 IH2].
-          { intros x Hx. rewrite log_split. apply Hdis. exact Hx. }
+        * destruct (IH c' _ _ now inv Hrep' Hlen' Hm' Hrel' Hmono) as [IH1 IH2].
           rewrite IH1. split; [reflexivity|exact IH2].
         * pose proof (rep_len _ _ Hrep'). lia.
         * apply drop_not_expired. exact (rel_asc _ _ _ _ _ Hrel).
       + (* Put *)
-        destruct (proj1 (NoDup_cons_iff id (put_ids h)) Hnd) as [Hx Hnd'].
-        assert (~ In id (map wid (rev w ++ old))) as Hfresh by (apply Hdis; left; reflexivity).
-        assert (~ In id (map wid w)) as Hfw.
-        { intros Hin. apply Hfresh. rewrite map_app. apply in_or_app. left. rewrite map_rev. apply in_rev.
-          rewrite rev_involutive. exact Hin. }
-        destruct (setitem_ok c w id s now Hrep Hfw) as [c' [E [Hrep' [Hl' Hm']]]].
+        destruct (setitem_ok c w id s now Hrep) as [c' [E [Hrep' [Hl' Hm']]]].
         rewrite E. cbn [fst snd]. rewrite Hlen in Hrep'.
-        destruct (rel_put n maxAge w old t now id s Hrel Ht Hfresh) as [old' [Hrel' Hlog]].
+        destruct (rel_put n maxAge w old t now id s Hrel Ht) as [old' [Hrel' Hlog]].
         { pose proof (rep_len _ _ Hrep). lia. }
         rewrite <- Hlog.
-        destruct (IH c' _ old' now inv Hrep' (eq_trans Hl' Hlen) (eq_trans Hm' Hage) Hrel' Hmono Hnd') as [IH1 IH2].
-        { intros y Hy. rewrite Hlog. cbn [map wid fst In]. intros [H1|H1].
-          - subst y. exact (Hx Hy).
-          - revert H1. apply Hdis. right. exact Hy. }
+        destruct (IH c' _ old' now inv Hrep' (eq_trans Hl' Hlen) (eq_trans Hm' Hage) Hrel' Hmono) as [IH1 IH2].
         rewrite IH1. split; [reflexivity|exact IH2].
       + (* Purge *)
         destruct (purge_ok c w now Hrep) as [c' [E [Hrep' [Hl' Hm']]]].
@@ -587,11 +616,10 @@ Section Histories.
         pose proof (rel_purge n maxAge w old t now Hrel Ht) as Hrel'.
         assert (zlen (c_list c') = n) as Hlen' by (rewrite Hl'; exact Hlen).
         rewrite <- (log_split maxAge now w old).
-        destruct (IH c' _ _ now inv Hrep' Hlen' Hm' Hrel' Hmono Hnd) as [IH1 IH2].
-        { intros x Hx. rewrite log_split. apply Hdis. exact Hx. }
+        destruct (IH c' _ _ now inv Hrep' Hlen' Hm' Hrel' Hmono) as [IH1 IH2].
         rewrite IH1. split; [reflexivity|exact IH2].
       + (* SetValid *)
-        destruct (IH c w old now (set_valid inv s b) Hrep Hlen Hage (rel_mono _ _ _ _ _ _ Hrel Ht) Hmono Hnd Hdis)
+        destruct (IH c w old now (set_valid inv s b) Hrep Hlen Hage (rel_mono _ _ _ _ _ _ Hrel Ht) Hmono)
           as [IH1 IH2].
         rewrite IH1. split; [reflexivity|exact IH2].
   Qed.
@@ -611,23 +639,22 @@ Proof.
   - intros k e Hk. destruct k; discriminate.
 Qed.
 
-Lemma exec_init n maxAge h : 1 <= n -> monotone h -> distinct_puts h ->
+Lemma exec_init n maxAge h : 1 <= n -> monotone h ->
   outcomes n maxAge h = spec_outcomes n maxAge h /\ zlen (c_dict (final_cache n maxAge h)) <= n - 1.
 Proof.
-  intros Hn Hm Hd. destruct (monotone_start h Hm) as [t Ht].
+  intros Hn Hm. destruct (monotone_start h Hm) as [t Ht].
   destruct (init_rep n maxAge Hn) as [Hrep Hlen].
   unfold outcomes, spec_outcomes, final_cache, init_world.
-  apply (exec_refines n maxAge h (init n maxAge) [] [] t [] Hrep Hlen eq_refl (init_rel n maxAge t) Ht Hd).
-  intros id _ [].
+  exact (exec_refines n maxAge h (init n maxAge) [] [] t [] Hrep Hlen eq_refl (init_rel n maxAge t) Ht).
 Qed.
 
-Lemma cache_refines_spec_distinct : forall n maxAge h,
-  1 <= n -> monotone h -> distinct_puts h -> outcomes n maxAge h = spec_outcomes n maxAge h.
-Proof. intros n maxAge h Hn Hm Hd. exact (proj1 (exec_init n maxAge h Hn Hm Hd)). Qed.
+Lemma cache_refines_spec_all : forall n maxAge h,
+  1 <= n -> monotone h -> outcomes n maxAge h = spec_outcomes n maxAge h.
+Proof. intros n maxAge h Hn Hm. exact (proj1 (exec_init n maxAge h Hn Hm)). Qed.
 
-Lemma cache_size_bound_distinct : forall n maxAge h,
-  1 <= n -> monotone h -> distinct_puts h -> zlen (c_dict (final_cache n maxAge h)) <= n - 1.
-Proof. intros n maxAge h Hn Hm Hd. exact (proj2 (exec_init n maxAge h Hn Hm Hd)). Qed.
+Lemma cache_size_bound_all : forall n maxAge h,
+  1 <= n -> monotone h -> zlen (c_dict (final_cache n maxAge h)) <= n - 1.
+Proof. intros n maxAge h Hn Hm. exact (proj2 (exec_init n maxAge h Hn Hm)). Qed.
 
 (* specification outcomes are always documented ones *)
 Lemma spec_documented n maxAge : forall h st, all_documented h (spec_exec n maxAge st h) = true.
@@ -639,9 +666,9 @@ Proof.
   destruct ((now - ts <=? maxAge) && (k <? capacity n) && valid_in (s_invalid st) s); reflexivity.
 Qed.
 
-Lemma cache_no_internal_error_distinct : forall n maxAge h,
-  1 <= n -> monotone h -> distinct_puts h -> all_documented h (outcomes n maxAge h) = true.
+Lemma cache_no_internal_error_all : forall n maxAge h,
+  1 <= n -> monotone h -> all_documented h (outcomes n maxAge h) = true.
 Proof.
-  intros n maxAge h Hn Hm Hd. rewrite (cache_refines_spec_distinct n maxAge h Hn Hm Hd).
+  intros n maxAge h Hn Hm. rewrite (cache_refines_spec_all n maxAge h Hn Hm).
   apply spec_documented.
 Qed.
